@@ -132,6 +132,11 @@ def run_case(case):
         model = dsl.build_lcm_model(desc)
         fsim, _ = pipeline.get_lcm_function(model, "simulate")
         sA, sB = int(rng.integers(0, 2**31 - 1)), int(rng.integers(0, 2**31 - 1))
+        if case["index"] % 4 == 1:
+            sA = 0  # a legitimate seed like any other
+            add("seed_zero_cases")
+        elif case["index"] % 4 == 3:
+            sB = 0
         dfs = []
         for sd in (sA, sA, sB):
             traces.append([])
